@@ -467,6 +467,31 @@ let oracle_only_cases oc r =
       [ "{{ m }}"; "{{ m.map }}|{{ m.list }}|{{ m.map|join(',') }}"; "{% for k, v in m.map %}{{ k }}={{ v }};{% endfor %}";
         "{{ dump(m.map) }}|{{ '%v'|format(m.list) }}|{{ m.map|keys|join(',') }}|{{ m.map|length }}" ])
     [ 3; 9 ];
+  (* every registered filter and function fed a hash: a literal whose keys overlap as prefixes of one another, and
+     a map of the context; the same with arguments that are hashes. Whatever the filter makes of it (many refuse),
+     it is one answer. The names come from the registry regenerated from extension.go. *)
+  let names l = List.map (fun (k, _) -> string_of_bytes k) l in
+  let lit = "{'Mr': 'Herr', 'Mrs': 'Frau', 'M': 'm', 'rs': 'RS', 'Mrs S': 'X', 's': 'Z'}" in
+  List.iter (fun f ->
+    List.iter (fun src -> raw oc "oracle-only" src fixed_ctx)
+      [ Printf.sprintf "{{ 'Dear Mrs Smith, Mr Smith'|%s(%s) }}" f lit; Printf.sprintf "{{ %s|%s }}" lit f; Printf.sprintf "{{ m|%s }}|{{ o|%s }}" f f;
+        Printf.sprintf "{{ %s|%s(m) }}" lit f; Printf.sprintf "{{ 'abcabc'|%s(m, n) }}" f; Printf.sprintf "{{ (%s|%s)|json_encode }}" lit f;
+        Printf.sprintf "{%% for k, v in %s|%s %%}{{ k }}={{ v }};{%% endfor %%}" lit f ])
+    (List.filter (fun f -> f <> "date") (names Model.reg_GetFilters));   (* date of something that is no date is the current time *)
+  List.iter (fun f ->
+    if f <> "random" && f <> "parent" && f <> "include" && f <> "date" then
+      List.iter (fun src -> raw oc "oracle-only" src fixed_ctx)
+        [ Printf.sprintf "{{ %s(%s) }}" f lit; Printf.sprintf "{{ %s(m) }}|{{ %s(m, o) }}" f f; Printf.sprintf "{{ %s(%s, m)|json_encode }}" f lit ])
+    (names Model.reg_GetFunctions);
+  (* a hash whose values read names the same hash assigns: with / set / macro arguments evaluate every value in the
+     scope outside the hash *)
+  let inc2 = [ ("inc2", "[{{ title }}|{{ heading }}|{{ a }}|{{ b }}|{{ c }}]") ] in
+  List.iter (fun s -> raw oc "oracle-only" ~tpls:inc2 s (fixed_ctx @ [ (b "title", VStr (b "hello")); (b "a", VStr (b "A")); (b "b", VStr (b "B")) ])) [
+    "{% include 'inc2' with {'title': title|upper, 'heading': title, 'a': b, 'b': a, 'c': a ~ b} %}";
+    "{% include 'inc2' with {'heading': title, 'title': title|upper, 'c': a ~ b, 'b': a, 'a': b} only %}";
+    "{% for i in [1, 2] %}{% include 'inc2' with {'a': b ~ i, 'b': a ~ i, 'title': heading|default(title), 'heading': title ~ a} %}{% endfor %}";
+    "{% set h = {'title': title|upper, 'heading': title, 'a': b, 'b': a} %}{{ h.title }}{{ h.heading }}{{ h.a }}{{ h.b }}";
+    "{% macro mk(h) %}{{ h.a }}{{ h.b }}{{ h.t }}{% endmacro %}{{ mk({'a': b, 'b': a, 't': title}) }}{{ _self.mk({'t': a, 'b': title, 'a': b}) }}" ];
   ignore r
 
 (* ---------------------------------------------------------------- date formats *)
